@@ -233,10 +233,24 @@ def _refine(src, out):
         for x, y in ((a, b), (b, a)):
             ylo, yhi = bounds(y)
             if ylo is not None and ylo == yhi and _real_isinstance(x, SInt):
-                if x.lo is not None and x.lo == ylo:
-                    x.lo += 1
-                if x.hi is not None and x.hi == ylo:
-                    x.hi -= 1
+                exclude(x, ylo)
+
+
+def exclude(x, c):
+    """x != c is known on this path"""
+    if x.lo is not None and x.lo == c:
+        x.lo += 1
+        while x.excl and x.lo in x.excl:
+            x.lo += 1
+    elif x.hi is not None and x.hi == c:
+        x.hi -= 1
+        while x.excl and x.hi in x.excl:
+            x.hi -= 1
+    else:
+        if x.excl is None:
+            x.excl = set()
+        if _real_len(x.excl) < 64:
+            x.excl.add(c)
 
 
 def _set_lo(x, v):
@@ -409,10 +423,11 @@ def _build(n):
 
 
 class SInt:
-    __slots__ = ("_t", "op", "args", "lo", "hi", "m", "r")
+    __slots__ = ("_t", "op", "args", "lo", "hi", "m", "r", "excl")
 
     def __init__(self, t, lo=None, hi=None, m=1, r=0):
         self._t = t
+        self.excl = None  # small set of constants the value is known to differ from
         self.op = None
         self.args = None
         self.lo = lo
@@ -495,6 +510,8 @@ class SInt:
                 return lo == olo
             m2, r2 = stride(o)
             if m2 == 0 and self.m > 1 and (r2 - self.r) % self.m != 0:
+                return False
+            if m2 == 0 and self.excl is not None and r2 in self.excl:
                 return False
             return mk_bool(self.t == iterm(o), (self, "eq", o))
         raise AssertionError(op)
